@@ -144,7 +144,9 @@ class RunTaskExecutable(Operation):
                 ctx.tee_processor.shutdown()
             raise
 
-        except OSError as ex:
+        except (OSError, ValueError) as ex:
+            # N.B. `Popen` raises `ValueError` (not `OSError`) when the command
+            # cannot be passed to `exec` at all (e.g., it contains a NUL byte).
             raise TaskFailed(task_identifier=self._identifier).add_extra_context(
                 str(ex)
             )
